@@ -1,3 +1,3 @@
--- Model driver for property C02 (stub until the property's model exists).
-import GojaModel.Base.Proto
-def main : IO Unit := GojaModel.Proto.lineMap (fun _ => "unimplemented")
+-- Model driver for property C02 (MiniJS reference interpreter).
+import GojaModel.C02.Driver
+def main : IO Unit := GojaModel.C02.Driver.main
